@@ -347,6 +347,54 @@ theorem C07_round_half_even_error (n k : Nat) :
       · constructor <;> (rw [hq]; omega)
       · rw [Nat.add_mul, hq]; constructor <;> omega
 
+/-! ### timedelta text codec -/
+
+/-- timedelta as text (`INTERVAL '…' HOUR TO SECOND` literals, str input of validate): `str2timedelta(timedelta2str(td)) == td`
+    for every normalised timedelta — any number of days of either sign, all seconds, all microseconds -/
+theorem C07_roundtrip_timedelta_text (td : TDelta) (h : td.valid) : str2timedelta (timedelta2str td) = some td.micros := by
+  obtain ⟨days, sec, us⟩ := td
+  obtain ⟨hs, hu⟩ := h
+  simp only at hs hu
+  unfold timedelta2str str2timedelta TDelta.micros
+  simp only
+  by_cases hneg : days < 0
+  · have hge : ¬ days ≥ 0 := by omega
+    simp only [hneg, hge, if_true, if_false, stripNeg_minus]
+    by_cases h0 : us = 0
+    · subst h0
+      simp only [ne_eq, not_true_eq_false, if_false]
+      have := parseTdBody_shape ((-(days * 86400 + (sec : Int))).toNat / 60 / 60) ((-(days * 86400 + (sec : Int))).toNat / 60 % 60) ((-(days * 86400 + (sec : Int))).toNat % 60) 0 (by omega)
+      simp only [ne_eq, not_true_eq_false, if_false] at this
+      rw [this]
+      simp only [Option.some.injEq]
+      omega
+    · simp only [ne_eq, h0, not_false_eq_true, if_true]
+      have h1 : 1000000 - us ≠ 0 := by omega
+      have := parseTdBody_shape (((-(days * 86400 + (sec : Int))).toNat - 1) / 60 / 60) (((-(days * 86400 + (sec : Int))).toNat - 1) / 60 % 60) (((-(days * 86400 + (sec : Int))).toNat - 1) % 60) (1000000 - us) (by omega)
+      simp only [ne_eq] at this
+      rw [this]
+      simp only [Option.some.injEq]
+      omega
+  · have hge : days ≥ 0 := by omega
+    simp only [hneg, hge, if_true, if_false]
+    have := parseTdBody_shape ((days * 86400 + (sec : Int)).toNat / 60 / 60) ((days * 86400 + (sec : Int)).toNat / 60 % 60) ((days * 86400 + (sec : Int)).toNat % 60) us hu
+    rw [stripNeg_natDigits, this]
+    simp only [Bool.false_eq_true, if_false, Option.some.injEq]
+    omega
+
+
+/-- consequently the text is injective: two different durations never get the same literal -/
+theorem C07_timedelta_text_injective (a b : TDelta) (ha : a.valid) (hb : b.valid) (h : timedelta2str a = timedelta2str b) :
+    a.micros = b.micros := by
+  have e1 := C07_roundtrip_timedelta_text a ha
+  rw [h, C07_roundtrip_timedelta_text b hb] at e1
+  injection e1 with e1; exact e1.symm
+
+example : str2timedelta (timedelta2str ⟨-1, 86399, 999999⟩) = some (-1) := by
+  rw [C07_roundtrip_timedelta_text _ (by simp [TDelta.valid])]; rfl
+example : str2timedelta "-0:0:0.000001".toList = some (-1) := by decide
+example : str2timedelta "25:2:3".toList = some 90123000000 := by decide
+
 /-! ### query parameters: `e.attr == param` compares the stored encoding with the encoding of the parameter
    (the parameter goes through the same `py2sql`), so it selects exactly the rows holding an equal value -/
 
